@@ -839,6 +839,8 @@ struct Lower
         E = E->IgnoreImplicit()->IgnoreParens();
         while(true)
         {
+            if(auto* X = dyn_cast<ExplicitCastExpr>(E)) { E = X->getSubExpr()->IgnoreImplicit()->IgnoreParens(); continue; }
+            if(auto* X = dyn_cast<ImplicitCastExpr>(E)) { E = X->getSubExpr()->IgnoreImplicit()->IgnoreParens(); continue; }
             if(auto* X = dyn_cast<ExprWithCleanups>(E)) { E = X->getSubExpr()->IgnoreImplicit()->IgnoreParens(); continue; }
             if(auto* X = dyn_cast<CXXConstructExpr>(E); X && X->getNumArgs() == 1 && X->getConstructor()->isCopyOrMoveConstructor()) { E = X->getArg(0)->IgnoreImplicit()->IgnoreParens(); continue; }
             if(auto* X = dyn_cast<MaterializeTemporaryExpr>(E)) { E = X->getSubExpr()->IgnoreImplicit()->IgnoreParens(); continue; }
